@@ -40,7 +40,9 @@ def obligations():
     for ch, sk in (("one", "none"), ("tail", "none"), ("one", "s2"), ("two", "mid")):
         o.append(Obl(f"C15.rules.beta.n8.{ch}.{sk}", "py", H, "beta_sheets", [D + "calculate_beta_sheets", D + "Bridge", D + "_residue_test_bridge"], f"8 residues, chains '{ch}', skip mask '{sk}', every pair free (up to 3^6 type matrices)",
                      "B / E codes equal the reference ladder algorithm on every path", 900, params={"n": 8, "chains": ch, "skips": sk}))
-    o.append(Obl("C15.rules.beta.n9", "py", H, "beta_sheets", [D + "calculate_beta_sheets"], "9 residues, one chain, every pair free (10 pairs)", "same", 6000, params={"n": 9, "chains": "one", "skips": "none", "max_paths": 300000}, tiers=("thorough",)))
+    for tag, allowed in (("a", "1-5;1-6;1-7;2-6;2-7;3-7;4-7"), ("b", "1-4;1-5;1-6;2-5;2-7;3-6;3-7")):
+        o.append(Obl(f"C15.rules.beta.n9.{tag}", "py", H, "beta_sheets", [D + "calculate_beta_sheets"], "9 residues, one chain, seven of the ten pairs free (" + allowed + "), the others assumed unbridged", "same", 3000,
+                     params={"n": 9, "chains": "one", "skips": "none", "allowed": allowed, "max_paths": 100000}, tiers=("thorough",)))
     for kind in ("parallel", "anti"):
         o.append(Obl(f"C15.rules.bulges.{kind}", "py", H, "beta_bulges", [D + "calculate_beta_sheets (ladder extension, bulge merging)"], "15 residues; a two-bridge ladder and a third bridge at every gap combination (1..6 x 1..6); only these three pairs may be bridged",
                      "linked exactly when one strand has at most one and the other at most four extra residues, in the right direction; merged extents coded E", 1500, params={"n": 15, "kind": kind}))
